@@ -80,3 +80,24 @@ def _vz1(repo, mod):
     fn = repo.func("pynguin.ga.fitness_metrics", "compute_branch_distance_fitness_is_covered")
     s = find_stmt(fn, lambda s: isinstance(s, ast.If) and "branch_less_code_objects" in norm(s.test))
     return insert_before(mod, s, "if len(trace.executed_predicates) < len(subject_properties.existing_predicates):\n    return False")
+
+
+@variant("C10", "mio-covered-at-tiny-fitness", "pynguin.ga.algorithms.archive", "C10.mio-covered", "1.0 - normalise(f) rounds to 1.0 for a tiny non-zero fitness (the repaired defect)")
+def _v40(repo, mod):
+    fn = repo.func("pynguin.ga.algorithms.archive", "MIOArchive.update")
+    s = find_stmt(fn, lambda s: isinstance(s, ast.If) and norm(s.test) == "fitness_value > 0.0")
+    return delete_stmt(mod, s)
+
+
+@variant("C10", "mio-zero-fitness-not-covering", "pynguin.ga.algorithms.archive", "C10.mio-covered", "the cap below 1.0 is applied to a fitness of zero as well")
+def _v41(repo, mod):
+    fn = repo.func("pynguin.ga.algorithms.archive", "MIOArchive.update")
+    s = find_stmt(fn, lambda s: isinstance(s, ast.If) and norm(s.test) == "fitness_value > 0.0")
+    return replace_node(mod, s.test, "fitness_value >= 0.0")
+
+
+@variant("C10", "twin-mio-cap-by-covered-test", "pynguin.ga.algorithms.archive", None, "cap written with `!= 0.0`")
+def _v42(repo, mod):
+    fn = repo.func("pynguin.ga.algorithms.archive", "MIOArchive.update")
+    s = find_stmt(fn, lambda s: isinstance(s, ast.If) and norm(s.test) == "fitness_value > 0.0")
+    return replace_node(mod, s.test, "fitness_value != 0.0")
